@@ -766,6 +766,12 @@ func c13InvalidGrid() []c13Case {
 		{"tls", map[string]any{"min_version": "9.9"}, "min_version"},
 		{"tls", map[string]any{"max_version": "9.9"}, "max_version"},
 		{"tls", map[string]any{"min_version": "1.3", "max_version": "1.2"}, "min_version"},
+		// rules that relate two settings also hold when only ONE of them is written and the other has its default
+		{"tls", map[string]any{"max_version": "1.1"}, "min_version"},
+		{"tls", map[string]any{"max_version": "1.0"}, "min_version"},
+		{"retry", map[string]any{"max_elapsed_time": "1s"}, "max_elapsed_time"},
+		{"retry", map[string]any{"initial_interval": "400s"}, "max_elapsed_time"},
+		{"retry", map[string]any{"max_interval": "400s"}, "max_elapsed_time"},
 		{"net", map[string]any{"transport": "bogus"}, "transport"},
 		{"grpcserver", map[string]any{"max_recv_msg_size_mib": -1}, "max_recv_msg_size_mib"},
 		{"grpcserver", map[string]any{"read_buffer_size": -1}, "read_buffer_size"},
